@@ -329,6 +329,9 @@ class RF24:
             for b_array in buf:
                 result.append(self.send(b_array, ask_no_ack, force_retry, send_only))
             return result  # type: ignore[return-value]
+        if self._dyn_pl & 1 and not 1 <= len(buf) <= 32:
+            # reject the payload before the FIFOs are flushed for it
+            raise ValueError("buffer must have a length in range [1, 32]")
         if self._in[0] & 0x10 or self._in[0] & 1:
             self.flush_tx()
         if not send_only and self._in[0] >> 1 & 7 < 6:
